@@ -43,6 +43,11 @@ func shortText(s string) string {
 }
 
 // c13BadCatalogue returns bad lines; withPort = pairs mode.
+// c13AllowV6: IPv6 addresses in the list (well-formed addresses the IPv4 scans cannot probe: one
+// error each, like any other unusable address) - only where a gateway MAC exists, so that the entry
+// reaches the packet filler instead of ending as "no MAC"; set per run by runC13.
+var c13AllowV6 bool
+
 func c13BadLine(p picker, withPort bool, someIP string) c13Line {
 	type bl struct {
 		text    string
@@ -90,6 +95,14 @@ func c13BadLine(p picker, withPort bool, someIP string) c13Line {
 			{`{"ip":"` + someIP + `","pad":"` + strings.Repeat("x", 66000+p.n("pad", 9000)) + `"}`, []string{"toolong", "json"}, "over-long"},
 		}
 	}
+	if c13AllowV6 {
+		v6 := []string{"2001:db8::7", "fe80::1", "::1", "2001:db8:0:1::ffff"}[p.n("v6addr", 4)]
+		if withPort {
+			cat = append(cat, bl{fmt.Sprintf(`{"ip":%q,"port":%d}`, v6, port), []string{"address"}, "ipv6"}, bl{fmt.Sprintf(`{"ip":%q,"port":%d}`, v6, port), []string{"address"}, "ipv6"})
+		} else {
+			cat = append(cat, bl{fmt.Sprintf(`{"ip":%q}`, v6), []string{"address"}, "ipv6"}, bl{fmt.Sprintf(`{"ip":%q}`, v6), []string{"address"}, "ipv6"})
+		}
+	}
 	b := cat[p.n("badkind", len(cat))]
 	return c13Line{Text: b.text, Bad: true, Classes: b.classes, Tag: b.tag}
 }
@@ -111,7 +124,7 @@ func c13Classify(text string) string {
 		return "port"
 	case strings.Contains(l, "too long"):
 		return "toolong"
-	case strings.Contains(l, "invalid ip"), strings.Contains(l, "address"):
+	case strings.Contains(l, "invalid ip"), strings.Contains(l, "address"), strings.Contains(l, "dst ip"), strings.Contains(l, "ipv4"), strings.Contains(l, "ipv6"):
 		return "address"
 	}
 	return "other:" + firstLine(text)
@@ -205,6 +218,7 @@ func runC13(t *testing.T, c simrt.Chooser, o Opts) *Out {
 		}
 		s.CacheFile = p.bool("cachefile")
 	}
+	c13AllowV6 = !s.app() && !s.VPN && (s.GwMAC != "" || s.CacheGw)
 	// lines
 	n := 1 + p.n("nlines", 14)
 	nbadMax := 1 + p.n("nbadmax", 3)
